@@ -242,6 +242,8 @@ static unsigned putChunk(uint8_t *o, unsigned at, const uint8_t *data, const uns
 
 // ---------------------------------------------------------------- (A) the server side reading a reply body
 enum Framing { BY_LENGTH, BY_CHUNKS, BY_EOF };
+static bool onlyBodilessExtra = false; // set by c01_known_bodiless_extra_bytes only
+static bool onlyOverread = false;      // set by c01_known_overread_pooled only
 struct Exchange {
     Framing framing;
     unsigned n;                  // body the origin means to send
@@ -323,16 +325,19 @@ struct Exchange {
         const unsigned withSym = vf_range(0, originLen, "bytesWithHeader");
         vf_assume(withSym <= 2 || segEnd[withSym]);
         const unsigned with = (unsigned)vf_concretize(withSym);
-#ifndef C01_SHOW_CANDIDATES // (compiling with -DC01_SHOW_CANDIDATES removes the two exclusions and makes the check report both classes)
-        // KNOWN-FINDING candidate: bytes that follow the header block of a reply that cannot have a body (204, 304, reply to HEAD) are
-        // written to the store as body bytes (writeReplyBody(): truncateVirginBody() returns early when !expectingBody()).
-        if (headRequest || noBodyStatus) vf_assume(with == 0);
-        // KNOWN-FINDING candidate: bytes read beyond the end of a complete response are dropped and the connection is still
-        // returned to the idle pool when the response has Content-Length: 0 or chunked framing (persistentConnStatus() guards
-        // this with payloadTruncated only for Content-Length > 0).
-        if (framing == BY_LENGTH && declared == 0) vf_assume(with == 0);
-        if (framing == BY_CHUNKS) vf_assume(with <= frameEnd);
-#endif
+        // KNOWN FINDINGS (known_findings.json). Each class is examined by its own entry (c01_known_*), which sets the flag and
+        // is restricted to exactly that class; every other entry excludes both classes.
+        //  C01-bodiless-extra-bytes-stored: bytes that follow the header block of a reply that cannot have a body (204, 304,
+        //    reply to HEAD) are written to the store as body bytes (writeReplyBody(): truncateVirginBody() returns early when
+        //    !expectingBody()).
+        //  C01-overread-connection-pooled: bytes read beyond the end of a complete response with Content-Length: 0 or chunked
+        //    framing are dropped and the connection is still returned to the idle pool (persistentConnStatus() guards this
+        //    with payloadTruncated only for Content-Length > 0).
+        const bool bodiless = headRequest || noBodyStatus;
+        const bool extraAfterBodiless = bodiless && with > 0;
+        const bool overread = !bodiless && ((framing == BY_LENGTH && declared == 0 && with > 0) || (framing == BY_CHUNKS && with > frameEnd));
+        vf_assume(extraAfterBodiless == onlyBodilessExtra);
+        vf_assume(overread == onlyOverread);
         hs->inBuf.append(reinterpret_cast<const char *>(origin), with);
         originPos = with;
         hs->payloadSeen = hs->inBuf.length();
@@ -367,9 +372,7 @@ struct Exchange {
             // chunk's data, of a chunk, of the last-chunk line, of the body, or of everything the origin has sent
             const unsigned ks = vf_range(1, originLen - originPos, "segment");
             vf_assume(ks <= 2 || segEnd[originPos + ks]);
-#ifndef C01_SHOW_CANDIDATES
-            if (framing == BY_CHUNKS) vf_assume(originPos + ks <= frameEnd); // KNOWN-FINDING candidate (see setup()): no read beyond the final CRLF
-#endif
+            if (framing == BY_CHUNKS) vf_assume(originPos + ks <= frameEnd); // C01-overread-connection-pooled (see setup()): no later read goes beyond the final CRLF either
             completeRead(Comm::OK, (unsigned)vf_concretize(ks));
             break; }
         case END: sawEof = true; completeRead(Comm::ENDFILE, 0); break;
@@ -446,6 +449,24 @@ static void exchange(const Framing f)
     for (unsigned i = 0; i < NREADS; ++i) x.step();
     vf_observe("stored", storedLen); vf_observe("completed", fwdCompleted); vf_observe("fails", fwdFails); vf_observe("whole", storedWhole != nullptr);
     WITNESS_POINT();
+}
+// KNOWN FINDING C01-bodiless-extra-bytes-stored: 204 / 304 / reply to HEAD with 1..2 bytes following the header block
+extern "C" void c01_known_bodiless_extra_bytes(void)
+{
+    vf_quiet();
+    onlyBodilessExtra = true;
+    Exchange x;
+    x.setup(BY_LENGTH, 1, 1); // setup() ends with the strict check()
+}
+// KNOWN FINDING C01-overread-connection-pooled: "Content-Length: 0" + 1 more byte, or a complete chunked body + 1 more byte,
+// all arriving together with the header block
+extern "C" void c01_known_overread_pooled(void)
+{
+    vf_quiet();
+    onlyOverread = true;
+    Exchange x;
+    if (vf_concretize(vf_range(0, 1, "chunked"))) x.setup(BY_CHUNKS, 1, 1);
+    else x.setup(BY_LENGTH, 0, 0);
 }
 extern "C" void c01_body_length(void) { exchange(BY_LENGTH); }
 extern "C" void c01_body_chunked(void) { exchange(BY_CHUNKS); }
